@@ -2,5 +2,5 @@ From Coq Require Import Extraction ExtrOcamlBasic.
 From F8 Require Import Base.Conv Sess.Bytes Sess.Msg Sess.Persist Sess.Session Sess.SimpleCodec Sess.Wire Sess.SendLemmas
   C17.Spec_C17 C25.Conc C25.Syntax C25.Spec_C25 C25.Run.
 Extraction Language OCaml.
-Extraction "../ocaml/gen/C25/model.ml" keep_types model_line canon_line c25_ok_line c25_phase_ok wf_schema
+Extraction "../ocaml/gen/C25/model.ml" keep_types model_line run_cops world0 render_trace parse_cline fparse_trace canon_line c25_ok c25_ok_line c25_phase_ok wf_schema
   trun prun tinit pinit quiescent.
